@@ -121,6 +121,36 @@ def command_census(prog, an, rep):
                       'Repository.cmd (not in the census)')
 
 
+ABSORBS = {'CommandError', 'Exception', 'BaseException'}
+
+
+def swallowing_handler(f, call):
+    """The handler of an enclosing try (the call being in its body) that
+    catches the CommandError of a git command and never re-raises, or
+    None."""
+    from ..rules import parent_map
+    pm = parent_map(f.node)
+    n = call
+    while n in pm:
+        p = pm[n]
+        if (isinstance(p, ast.Try) or p.__class__.__name__ == 'TryStar') \
+                and any(n is b for b in p.body):
+            for h in p.handlers:
+                ts = [h.type] if h.type is not None and not isinstance(
+                    h.type, ast.Tuple) else (
+                        list(h.type.elts) if h.type is not None else [None])
+                names = {None if t is None else src(t).rpartition('.')[2]
+                         for t in ts}
+                if not (None in names or names & ABSORBS):
+                    continue
+                if any(isinstance(x, ast.Raise) for b in h.body
+                       for x in ast.walk(b)):
+                    break       # (this handler gets it, and can re-raise)
+                return h
+        n = p
+    return None
+
+
 def prune_is_wildcard_delete(prog, an, rep):
     """`git push --all --prune` deletes every remote branch that has no
     local counterpart in the job's clone -- including branches created by
@@ -160,6 +190,24 @@ def prune_is_wildcard_delete(prog, an, rep):
                       'branches deleted on the remote survive in it and are '
                       'pushed back by the next `push --all`' % (
                           c.text.strip(), src(cwd)))
+            # ... and a failed refresh aborts the clone: carrying on with
+            # a stale mirror gives the job a clone without the branches
+            # pushed since, which the job's `push --all --prune` then
+            # deletes on the remote.  No enclosing try may absorb the
+            # CommandError of this command (a handler that can re-raise,
+            # e.g. the last attempt of a retry, is accepted).
+            rep.evaluated()
+            sw = swallowing_handler(c.f, c.call)
+            rep.check(sw is None, 'C08.CMD.mirror-refresh-fails-hard',
+                      c.f.qname + ': a failed refresh of the mirror aborts '
+                      'the clone', c.where, '`%s` (cwd=%s) runs under '
+                      '`except %s` at line %s, which carries on with the '
+                      'stale mirror: branches pushed since the last refresh '
+                      'are absent from the clone and are deleted by the '
+                      'job\'s `push --all --prune`' % (
+                          c.text.strip(), src(cwd),
+                          src(sw.type) if sw is not None and sw.type
+                          is not None else '', getattr(sw, 'lineno', '?')))
     rep.floor('C08 in-place refresh of the mirror', n_refresh, 1)
     push = prog.func(GU + '.push')
     n = 0
